@@ -232,7 +232,7 @@ VARIABLES msg,    \* the message on the wire (or None)
           ren,    \* bytes of the decoded pack written again: [re, rep, re2] (or None)
           store,  \* items (inner packs / records) registered for a container: sequence of messages
           box,    \* the container built from items: [kind, items, id, status, ...] (or None)
-          out     \* what unpacking the container returned: [v |-> sequence of [type, r]] (or None)
+          out     \* what unpacking the container returned: [d, ix] (see UnpackC) (or None)
 
 vars == <<msg, dec, ren, store, box, out>>
 
@@ -297,10 +297,15 @@ Build(b) ==
   /\ box' = b /\ out' = None
   /\ UNCHANGED <<msg, dec, ren, store>>
 
-Unpack(o) ==
+\* what unpacking returned: d = tuple of [type, r], ix = for every position the
+\* index into d of what stands there (a long list of few distinct records is
+\* logged once per distinct record)
+UnpackC(d, ix) ==
   /\ box # None /\ out = None
-  /\ out' = [v |-> o]
+  /\ \A i \in DOMAIN ix : ix[i] \in DOMAIN d
+  /\ out' = [d |-> d, ix |-> ix]
   /\ UNCHANGED <<msg, dec, ren, store, box>>
+Unpack(o) == UnpackC(o, [i \in 1..Len(o) |-> i])
 
 ZipLaw == (box # None /\ box.kind \in Stamping) =>
             /\ box.status = ZipStatus(box.status0, box.minsize, box.plainlen)
@@ -312,11 +317,13 @@ ZipLaw == (box # None /\ box.kind \in Stamping) =>
 Stamp(m, id) == [m EXCEPT !.w = [p \in DOMAIN m.w |-> IF p \in Identity THEN [m.w[p] EXCEPT !.v = id[p]] ELSE m.w[p]],
                           !.carried = m.carried \cup (Identity \cap DOMAIN m.w)]
 InnerOK(m, o) == o.type = m.type /\ AllRestored(m, o.r)
+\* position i of the container holds item box.items[i] and came back as
+\* out.d[out.ix[i]]: the law is stated once per distinct pair
 UnpackLaw == (box # None /\ out # None) =>
-  /\ Len(out.v) = Len(box.items)                                       \* nothing lost, nothing invented
-  /\ \A i \in DOMAIN out.v :                                           \* in order
-       LET m == store[box.items[i]] IN
-       InnerOK(IF box.kind \in Stamping THEN Stamp(m, box.id) ELSE m, out.v[i])
+  /\ Len(out.ix) = Len(box.items)                                      \* nothing lost, nothing invented
+  /\ \A pr \in {<<box.items[i], out.ix[i]>> : i \in DOMAIN out.ix} :     \* in order
+       LET m == store[pr[1]] IN
+       InnerOK(IF box.kind \in Stamping THEN Stamp(m, box.id) ELSE m, out.d[pr[2]])
 
 InvAll == SameType /\ CarriedRestored /\ ExactConsumption /\ ReEncodeIdentical /\ ZipLaw /\ UnpackLaw
 
